@@ -6,8 +6,10 @@
      C1    status_.compare_exchange_strong(0 -> running): success -> R1;
            failure: observed == complete ? return : event_.wait() (steps of Event.v) -> C0
      R1    event_.reset()              BODY  f runs (ends by returning or throwing: oracle)
-     ST    status_.store(complete) resp. status_.store(0) after a throw
-     SET   event_.set() (steps of Event.v); then return, resp. rethrow
+     success:  ST  status_.store(complete);  SET  event_.set() (steps of Event.v);  return
+     throw  :  SET event_.set();  ST  status_.store(0);  rethrow
+               (the repaired order; the original code stored 0 first, so that the next runner's
+                event_.reset() could be overtaken by this set(): finding F19 in notes/design/C09.md)
    Ghost: orun (the thread between a successful CAS and its status store), the log.
    Oracle: OONorm throws (the outcome of f if this step ends the body) | OOSpur (stale resume). *)
 From Coq Require Import List Bool Arith NArith.
@@ -47,15 +49,18 @@ Definition o_tstep (o : oorc) (t : nat) (g : once) (l : olocal) : once * olocal 
             olog := OBegin t :: olog g |}, o_at l OBody)
     | Some OBody =>
         ({| status := status g; oev := oev g; orun := orun g; olog := OEnd t (negb throws) :: olog g |},
-         o_at l (OStore (negb throws)))
+         o_at l (if throws then OSet false ES0 else OStore true))
     | Some (OStore ok) =>
-        ({| status := if ok then once_complete else once_after_throw; oev := oev g; orun := None;
-            olog := olog g |}, o_at l (OSet ok ES0))
+        if ok
+        then ({| status := once_complete; oev := oev g; orun := None; olog := olog g |}, o_at l (OSet true ES0))
+        else ({| status := once_after_throw; oev := oev g; orun := None; olog := OThrown t :: olog g |}, o_done l)
     | Some (OSet ok sub) =>
         let '(e', sub') := ev_step t (oev g) sub in
         match sub' with
-        | EDone => ({| status := status g; oev := e'; orun := orun g;
-                       olog := (if ok then ORet t else OThrown t) :: olog g |}, o_done l)
+        | EDone =>
+            if ok
+            then ({| status := status g; oev := e'; orun := orun g; olog := ORet t :: olog g |}, o_done l)
+            else ({| status := status g; oev := e'; orun := orun g; olog := olog g |}, o_at l (OStore false))
         | _ => ({| status := status g; oev := e'; orun := orun g; olog := olog g |}, o_at l (OSet ok sub'))
         end
     | Some (OWaitE sub) =>
